@@ -8,14 +8,20 @@ Wait/`Next()`, fire-or-discard decision, `Request.Add`, `Shoot`, `Response.Add`,
 identities.  A trace `evs : List Ev` is ANY interleaving of ANY number of instances (events that are not enabled make
 `run` return `none`); the theorems hold for every accepted trace, with no bound on instances, tokens, ammo or length.
 
+The schedule's `Next()` / `Left()` are atomic events of that system; `Pandora.Model.C03Fine` splits each into its one
+atomic access to the shared counter and its return, with arbitrary preemption in between, and `C03_fine_refines` shows
+that nothing new becomes reachable — `C03_fine_*` restate the clauses for that finer system.
+
 Tie: (1) the correspondence harness replays the event log of the REAL engine through `step` (every observed event
 must be enabled, item identities included) and evaluates `Spec.C03.verdict` on the real counters; (2) the body of one
 loop iteration, `IsFinished`, `Wait`, the schedule sharing of `buildNewInstanceSchedule` and `AmmoQueue` are
 regenerated from the current source and `Pandora.Bridge.InstLoop` proves them to be paths/facts of this model.
 -/
 import Pandora.Proofs.C03Reach
+import Pandora.Proofs.C03Fine
 import Pandora.Spec.C03
 import Pandora.Bridge.InstLoop
+import Pandora.Bridge.C03DoAt
 
 namespace Pandora.Props.C03
 open Pandora.Model.C03 Pandora.Proofs.C03
@@ -243,6 +249,82 @@ theorem C03_source_iteration_is_model_path :
 theorem C03_source_isFinished (left : Nat) : Pandora.Gen.InstLoop.isFinished false (left : Int) = true ↔ left = 0 :=
   Pandora.Bridge.InstLoop.isFinished_iff left
 
+/-! ### the pool at the granularity of the schedule's atomic operations (`Pandora.Model.C03Fine`) -/
+
+section Fine
+open Pandora.Model.C03Fine Pandora.Proofs.C03Fine
+
+/-- **refinement**: however the instances are preempted between the atomic access of a `Next()` / `Left()` on the
+profile and the return of that call, the pool ends up in a state the coarse system (atomic `Next` / `Left`) reaches too,
+by a run that is not longer -/
+theorem C03_fine_refines (c : Cfg) (fevs : List FEv) (s : FSt) (h : frun c (finit c) fevs = some s) :
+    ∃ evs : List Ev, run c (init c) evs = some s.base ∧ evs.length ≤ fevs.length :=
+  fine_refines fevs (finit c) s h
+
+/-- … and the coarse system is the fine one without preemption inside schedule calls: nothing is lost either -/
+theorem C03_coarse_is_fine (c : Cfg) (evs : List Ev) (b : St) (h : run c (init c) evs = some b) :
+    frun c (finit c) (evs.flatMap refine) = some { base := b, pend := List.replicate c.instances .idle } :=
+  coarse_is_fine evs (finit c) b rfl (init_invA c) h
+
+/-- fired + discarded = min(tokens, ammo) at the granularity of the atomic operations -/
+theorem C03_fine_total (c : Cfg) (fevs : List FEv) (s : FSt) (h : frun c (finit c) fevs = some s)
+    (ht : s.base.terminal = true) (hN : 0 < s.base.started) :
+    s.base.fired + s.base.discarded = minOpt (s.base.totalTokens c) c.ammo :=
+  let ⟨evs, hr⟩ := fine_reaches h
+  C03_total c evs s.base hr ht hN
+
+/-- every acquired item released exactly once, never used while not held, at the granularity of the atomic operations -/
+theorem C03_fine_release (c : Cfg) (fevs : List FEv) (s : FSt) (h : frun c (finit c) fevs = some s)
+    (ht : s.base.terminal = true) :
+    s.base.acquired = s.base.released ∧ (∀ k, k < s.base.acquired → s.base.rels[k]? = some 1) ∧ s.base.badUse = false :=
+  let ⟨evs, hr⟩ := fine_reaches h
+  ⟨(C03_release c evs s.base hr ht).1, fun k hk => C03_release_exactly_once c evs s.base hr ht k hk,
+   C03_never_bad_use c evs s.base hr⟩
+
+/-- the unfired bounds at the granularity of the atomic operations: ≤ started − 1 ≤ instances − 1 for a shared profile,
+0 for per-instance profiles -/
+theorem C03_fine_unfired (c : Cfg) (fevs : List FEv) (s : FSt) (h : frun c (finit c) fevs = some s)
+    (ht : s.base.terminal = true) :
+    (c.perInstance = false → s.base.acquired - (s.base.fired + s.base.discarded) ≤ s.base.started - 1 ∧
+        s.base.started - 1 ≤ c.instances - 1) ∧
+    (c.perInstance = true → s.base.acquired = s.base.fired + s.base.discarded) :=
+  let ⟨evs, hr⟩ := fine_reaches h
+  ⟨fun hc => C03_unfired_shared c evs s.base hc hr ht, fun hc => C03_unfired_per_instance c evs s.base hc hr ht⟩
+
+/-- Request = Response = fired at the granularity of the atomic operations -/
+theorem C03_fine_metrics (c : Cfg) (fevs : List FEv) (s : FSt) (h : frun c (finit c) fevs = some s)
+    (ht : s.base.terminal = true) : s.base.request = s.base.fired ∧ s.base.response = s.base.fired :=
+  let ⟨evs, hr⟩ := fine_reaches h
+  C03_metrics c evs s.base hr ht
+
+end Fine
+
+/-- the leaf profile's `Next()` / `Left()` REGENERATED from the current source each perform exactly one operation on
+the schedule's shared state, an atomic one (`i.Inc`, `i.Load`): the premise of `Model.C03Fine` -/
+theorem C03_source_schedule_accesses :
+    Pandora.Gen.InstLoop.schedNextAccesses = ["i.Inc"] ∧ Pandora.Gen.InstLoop.schedLeftAccesses = ["i.Load"] :=
+  Pandora.Bridge.InstLoop.sched_accesses
+
+/-- the regenerated `Left()` of a leaf profile returns the tokens left (never a negative number) and changes nothing —
+the model's `chk i left` -/
+theorem C03_source_leaf_left (s : Pandora.Gen.Schedule.DoAtSt) :
+    Pandora.Gen.Schedule.doAtSchedule_Left s = .ok ((Pandora.Bridge.C03DoAt.tokensLeft s : Int), s) :=
+  Pandora.Bridge.C03DoAt.left_eq s
+
+/-- the regenerated `Next()` of a leaf profile succeeds iff a token is left, moves the counter by exactly one in both
+cases and leaves one token fewer (none at 0) — the model's `tokOk` / `tokEnd` -/
+theorem C03_source_leaf_next (s : Pandora.Gen.Schedule.DoAtSt) (hf : Pandora.Bridge.C03DoAt.Flags s) (now : Int) :
+    ∃ tx s', Pandora.Gen.Schedule.doAtSchedule_Next now s = .ok ((tx, decide (0 < Pandora.Bridge.C03DoAt.tokensLeft s)), s') ∧
+      s'.i = s.i + 1 ∧ s'.n = s.n ∧ Pandora.Bridge.C03DoAt.Flags s' ∧
+      Pandora.Bridge.C03DoAt.tokensLeft s' = Pandora.Bridge.C03DoAt.tokensLeft s - 1 :=
+  Pandora.Bridge.C03DoAt.next_draws s hf now
+
+/-- a new regenerated leaf of `n` tokens hands out exactly `n`: call number `k+1` of `Next` succeeds iff `k < n` -/
+theorem C03_source_leaf_drain (duration n : Int) (doAt : Int → Int) (now : Int) (k : Nat) :
+    ∃ s tx s', Pandora.Bridge.C03DoAt.afterNexts now k (Pandora.Gen.Schedule.NewDoAtSchedule duration n doAt) = some s ∧
+      Pandora.Gen.Schedule.doAtSchedule_Next now s = .ok ((tx, decide (k < n.toNat)), s') :=
+  Pandora.Bridge.C03DoAt.drain duration n doAt now k
+
 /-! ### non-vacuity: each hypothesis is met by a concrete non-trivial run -/
 
 -- shared once(1), 2 ammo, two instances started one after the other; the second acquires an item that goes unfired;
@@ -292,6 +374,24 @@ example : ∃ s1 s2,
 example : (step ⟨false, 1, none, false, 1⟩
     { pcs := [.firing], started := 1, shared := 0, own := [0], ammoLeft := none, unf := [false],
       cur := [some 0], rels := [1], acquired := 1, released := 1 } (.shoot 0 0)).map (·.badUse) = some true := by decide
+
+-- `C03_fine_*`: two instances on a shared once(1); instance 1 increments the counter and is told "finished" while
+-- instance 0 is still between ITS increment (which drew the token) and the return of its `Next()`; instance 1 even
+-- re-checks `Left()` in that window.  Terminal, one fired, one unfired = started − 1
+example : ∃ s, Pandora.Model.C03Fine.frun ⟨false, 1, none, false, 2⟩ (Pandora.Model.C03Fine.finit ⟨false, 1, none, false, 2⟩)
+    [.other (.start 0), .load 0, .other (.start 1), .load 1, .leftRet 1 1, .leftRet 0 1, .other (.acq 0), .other (.acq 1),
+     .inc 0, .inc 1, .nextRet 1 false, .other (.rel 1 1), .load 1, .nextRet 0 true, .leftRet 1 0, .other (.reqAdd 0),
+     .other (.shoot 0 0), .other (.respAdd 0), .other (.rel 0 0), .load 0, .leftRet 0 0] = some s ∧
+    s.terminal = true ∧ s.base.started = 2 ∧ s.base.fired = 1 ∧ s.base.unfired = 1 := by
+  refine ⟨_, rfl, by decide, by decide, by decide, by decide⟩
+
+-- an instance inside a schedule call does nothing else: `acq` is not enabled between `load` and `leftRet`
+example : Pandora.Model.C03Fine.frun ⟨false, 1, none, false, 1⟩ (Pandora.Model.C03Fine.finit ⟨false, 1, none, false, 1⟩)
+    [.other (.start 0), .load 0, .other (.acq 0)] = none := by decide
+
+-- `C03_source_leaf_next`: a new regenerated leaf has consistent flags
+example : Pandora.Bridge.C03DoAt.Flags (Pandora.Gen.Schedule.NewDoAtSchedule 0 3 (fun _ => 0)) :=
+  (Pandora.Bridge.C03DoAt.new_tokens 0 3 (fun _ => 0)).2
 
 -- a mutated iteration body (Wait before Acquire) is NOT accepted: the bridge obligation is falsifiable
 example : Pandora.Model.C03Loop.bodyAccepted
